@@ -219,7 +219,7 @@ class KvsDriver:
 
 
 TKEYS = ["a", "b", "d/e"]
-TRANGE = {1: range(0, 25), 2: range(5, 35), 3: range(100, 125), 4: range(3, 7), 5: range(24, 31), 6: range(20, 28)}
+TRANGE = {1: range(0, 25), 2: range(5, 35), 3: range(100, 125), 4: range(3, 7), 5: range(24, 31), 6: range(20, 28), 7: range(0, 0)}      # 7: a table with a schema and no rows
 EXTRA_COL = {6}          # table 6 has a second column q: a stored row wins as a WHOLE (its q stays undefined)
 
 
